@@ -21,8 +21,16 @@ fn go<W: WaitStrategy + 'static>(n: usize, seen: Arc<AtomicU64>) {
     sequencer.add_gating_sequence(&hcur);
     let runnable = processor.prepare(barrier, dp.clone());
     let producer = Producer::new(dp.clone(), sequencer.clone());       // the documented pattern: one producer per clone
+    // a further barrier on the handler's cursor, used as a read-only monitor of consumer progress and dropped while the pipeline
+    // is still in use: barriers are independent objects, dropping one must not stop anybody
+    let monitor = sequencer.create_barrier(&[hcur.clone()]);
     let t = std::thread::spawn(move || runnable.run());
-    for i in 0..n { producer.write(std::iter::once(i as u64 + 1), |slot, _, v| *slot = *v); }
+    let mut monitor = Some(monitor);
+    for i in 0..n {
+        producer.write(std::iter::once(i as u64 + 1), |slot, _, v| *slot = *v);
+        if i == 0 { if let Some(m) = monitor.take() { let _ = m.wait_for(1); drop(m); } }
+    }
+    drop(monitor);
     producer.drain();
     let _ = t.join();
     drop(sequencer);
